@@ -244,8 +244,7 @@ def _locations(res, found):
             old = os.getcwd()
             os.chdir(root)
             try:
-                with driver.patched([(driver.mods()["cgit"], "subprocess",
-                                      __import__("vfw.vk", fromlist=["Facade"]).Facade(__import__("subprocess"), {"run": fakegit.NO_GIT.run}))]):
+                with driver.patched(driver.git_seam(fakegit.NO_GIT)):
                     for p in paths:
                         for nm in names:
                             res["evals"] += 1
